@@ -14,6 +14,7 @@ import numpy as np
 from rv import romodel as R
 from rv import detmodel as D
 from rv import common as C
+from rv import contracts
 
 N_CASES = {'quick': 360, 'thorough': 7000}
 TIMEOUT = {'quick': 1500, 'thorough': 6 * 3600}
@@ -230,6 +231,10 @@ def run_matrix(spec, ctx):
             'observed': {'base': r0[1], 'reference': ref}}
 
 
+def setup_worker(ctx):
+    contracts.install_helpers(ctx, ['flat'])
+
+
 def gen_case(rng, idx, tier):
     nrew = 4 if tier == 'quick' else 6
     if rng.random() < 0.2:
@@ -247,7 +252,7 @@ def gen_case(rng, idx, tier):
                 elif nme == 'xbound_form':
                     v[nme] = int(rng.integers(1, 5))
                 elif nme == 'set_args':
-                    v[nme] = int(rng.integers(4))
+                    v[nme] = int(rng.integers(5))
                 elif nme == 'vectorize':
                     v['vectorize'] = True
                     continue
